@@ -26,7 +26,9 @@ SCENARIOS = {
         racks={'rack:r1': ['s1', 's2'], 'rack:r2': ['s3']}, partitions=['pB'], traits=['t1'],
         sprofiles=[dict(cap=[2048, 2, 2048], label='_default', traits=[]),
                    dict(cap=[3072, 3, 3072], label='pB', traits=['t1']),
-                   dict(cap=[1024, 1, 1024], label='_default', traits=['t1'])],
+                   dict(cap=[1024, 1, 1024], label='_default', traits=['t1']),
+                   dict(cap=[3072, 1, 1024], label='_default', traits=[]),
+                   dict(cap=[1024, 3, 3072], label='_default', traits=[])],
         server_init={'s1': 1, 's2': 1, 's3': 2},
         allocsets=[[_alloc('proid/x', '_default', [('proid.web*', 1)]),
                     _alloc('proid/z', 'pB', [('proid.db*', 5)])],
